@@ -91,10 +91,13 @@ def w_pipeline(pid, tier, seed, job):
             ctx.require("export names can be assigned", case, False, ie)
             continue
         en = ie[1]
-        ic = M.impl_res(C6.impl_combine, en)
+        ic = M.impl_res(C6.impl_combine, en, raw)
         if ic[0] != "ok":
             ctx.require("stereo pairing succeeds", case, False, ic)
             continue
+        # the samples carry their stored names; the pairing is decided on the export names alone
+        ctx.require("pairing depends on the export names only, not on the stored names", dict(case, export_names=en),
+                    ic == M.impl_res(C6.impl_combine, en), {"with_stored_names": ic[1]})
         srcs = sorted(i for _, s in ic[1] for i in s)
         ctx.require("after naming + pairing every sample of the directory is the source of exactly one file", dict(case, export_names=en),
                     srcs == list(range(len(raw))), {"sources": srcs, "outputs": ic[1]})
@@ -133,6 +136,9 @@ def w_image(pid, tier, seed, job):
                 ghost = AW.SampleFile(name="GH0ST%d" % g, type_byte=rng.choice([0x00, 0xF8, 0x74, 0x64, 0x78]), raw_body=bytes(rng.randrange(256) for _ in range(40)))
                 files.insert(rng.randint(1, len(files)), ghost)
         vols.append(AW.Volume("V%d" % vi, files))
+    # a fixed directory where stored and export names differ: a duplicated L next to its R, a stem that sanitising rewrites
+    fx = [AW.SampleFile(name=n, pcm=struct.pack("<4h", 9000 + i, 1, 2, 3)) for i, n in enumerate(["PAD -L", "PAD -L", "PAD -R", "GTR+ -L", "GTR+ -R", "Z"])]
+    vols.append(AW.Volume("FIXED", fx))
     # two volumes with the SAME stored name (exported as NAME and NAME (2)): pairing is per directory - an L here and its R there stay apart
     twin = rng.random() < 0.5
     if twin:
